@@ -122,7 +122,7 @@ def info(tier):
         "iteratively folded reference and pairwise; distinct = (kind, op, n, build) cells + canonical random recipes" % len(KINDS),
         "required_cells": [f"kind:{k}" for k in KINDS] + [f"op:{o}" for o in OPS] + [f"n:{n}" for n in (60, 120, 399, 400, 401, 450, 900, 5000, 20000)]
         + ["build:left-deep", "build:left-deep-fresh-leaves", "build:balanced", "build:vectorised", "obs:after-set", "obs:variables", "obs:degree", "obs:gradient", "obs:evaluate",
-           "obs:compiled-value", "obs:compiled-gradient", "obs:solve", "thresholds-lowered"] + [f"outer:{f}" for f in R.FUNCS],
+           "obs:compiled-value", "obs:compiled-gradient", "obs:solve", "thresholds-lowered", "spelling:constant-minus-reduction", "spelling:quotient-of-reductions-at-zero-denominator"] + [f"outer:{f}" for f in R.FUNCS],
         "assumptions": ["reference folds the term list iteratively (no recursion limit involved)",
                         "chains draw their terms from <= 8 variables (depth is what matters)"],
     }
@@ -446,6 +446,79 @@ def run_vectorised(rec, rng, n):
             rec.violation("deep-vs-vectorised:gradient-wrong", {"n": n, "build": name})
 
 
+def run_spellings(rec, rng, n):
+    """The same formula accumulated term by term and written with vector reductions, for the forms `constant - reduction` (which have
+    a per-node Jacobian shortcut of their own) and for quotients of reductions evaluated where the denominator is exactly zero."""
+    import optyx
+    from optyx.core import autodiff as AD
+    from optyx.core import compiler as C
+
+    rec.case({"spellings": n})
+    x = optyx.VectorVariable("x", n)
+    V = list(x)
+    a = np.array([1.0 + (i % 5) * 0.5 for i in range(n)])
+    xs = np.array([0.3 + 0.01 * (i % 37) for i in range(n)])
+
+    def acc(first, terms, minus=True):
+        e = first
+        for t in terms:
+            e = e - t if minus else e + t
+        return e
+
+    forms = {
+        "c - x.x": (10.0 - x.dot(x), acc(10.0 - x[0] * x[0], [x[i] * x[i] for i in range(1, n)]), -2.0 * xs),
+        "c - sum x^2": (10.0 - (x ** 2).sum(), acc(10.0 - x[0] ** 2, [x[i] ** 2 for i in range(1, n)]), -2.0 * xs),
+        "c - a@x": (7.0 - a @ x, acc(7.0 - float(a[0]) * x[0], [float(a[i]) * x[i] for i in range(1, n)]), -a),
+        "c - sum x": (3.0 - x.sum(), acc(3.0 - x[0], [x[i] for i in range(1, n)]), -np.ones(n)),
+        "c - 2*sum x^3": (1.0 - 2.0 * (x ** 3).sum(), acc(1.0 - 2.0 * x[0] ** 3, [2.0 * x[i] ** 3 for i in range(1, n)]), -6.0 * xs ** 2),
+        "c - (x.x + 1)": (5.0 - (x.dot(x) + 1.0), acc(5.0 - (x[0] * x[0] + 1.0), [x[i] * x[i] for i in range(1, n)]), -2.0 * xs),
+    }
+    for name, (vec, deep, want) in forms.items():
+        for build, e in (("vectorised", vec), ("left-deep", deep)):
+            for route, mk in (("compile_jacobian", lambda e=e: AD.compile_jacobian([e], V)), ("compile_gradient", lambda e=e: C.compile_gradient(e, V))):
+                try:
+                    got = np.asarray(mk()(xs), dtype=float).reshape(-1)
+                except RecursionError as ex:
+                    rec.violation(f"RecursionError:spelling:{route}", {"form": name, "n": n, "build": build, "error": repr(ex)[:100]})
+                    continue
+                except Exception as ex:
+                    rec.violation(f"raises:spelling:{route}:{type(ex).__name__}", {"form": name, "n": n, "build": build, "error": repr(ex)[:200]})
+                    continue
+                rec.cmp(n, "spelling:constant-minus-reduction")
+                if got.shape != want.shape or not np.allclose(got, want, rtol=1e-9, atol=1e-12):
+                    rec.violation("derivative-depends-on-the-spelling-of-the-formula", {"form": name, "n": n, "build": build, "route": route,
+                                                                                      "got": got[:6].tolist(), "want": want[:6].tolist()})
+    # quotients of reductions at a point where the denominator is exactly zero: both builds must answer alike
+    m = 4
+    y = optyx.VectorVariable("y", m)
+    Vy = list(y)
+    filler = [0.001 * (y[i % m] - 0.1 * (i % 3)) ** 2 for i in range(n)]
+    quots = {"1/sum y^2": lambda: 1.0 / (y ** 2).sum(), "sum y^4 / sum y^2": lambda: (y ** 4).sum() / (y ** 2).sum(), "log(sum y^2)": lambda: optyx.log((y ** 2).sum()),
+             "2/y.y": lambda: 2.0 / y.dot(y)}
+
+    def balanced(objs):
+        while len(objs) > 1:
+            objs = [objs[i] + objs[i + 1] if i + 1 < len(objs) else objs[i] for i in range(0, len(objs), 2)]
+        return objs[0]
+
+    zero = np.zeros(m)
+    for qn, mkq in quots.items():
+        outs = {}
+        for build in ("left-deep", "balanced"):
+            try:
+                q_ = mkq()
+                e = acc(q_, filler, minus=False) if build == "left-deep" else balanced([q_] + list(filler))
+                with np.errstate(all="ignore"):
+                    v = float(np.asarray(C.compile_expression(e, Vy)(zero)).reshape(-1)[0])
+                    g = np.asarray(C.compile_gradient(e, Vy)(zero), dtype=float).reshape(-1)
+                outs[build] = ("returns", "nan" if v != v else ("inf" if abs(v) == float("inf") else "finite"), bool(np.all(np.isfinite(g))))
+            except Exception as ex:
+                outs[build] = ("raises", type(ex).__name__, None)
+        rec.cmp(1, "spelling:quotient-of-reductions-at-zero-denominator")
+        if outs.get("left-deep") != outs.get("balanced"):
+            rec.violation("behaviour-at-a-singular-point-depends-on-the-association", {"form": qn, "n": n, "left_deep": outs.get("left-deep"), "balanced": outs.get("balanced")})
+
+
 def with_thresholds(value, fn):
     from optyx import analysis as AN
     from optyx.core import autodiff as AD
@@ -592,6 +665,10 @@ def run(ctx, rec):
         i += 1
         if ctx.mine(i):
             run_vectorised(rec, rng, n)
+    for n in (30, 399, 401, 450):
+        i += 1
+        if ctx.mine(i):
+            run_spellings(rec, rng, n)
     lowered_thresholds(rec, rng, N_RANDOM[ctx.tier])
 
 
